@@ -1,7 +1,10 @@
 from props_common import COMMON_TRUSTED
 
 CONFIG = {
-    "areas": ["ctx", "auth"],
+    "areas": ["ctx", "auth", "stateres"],
+    # "as state resolution does": the resolvers are the one place where the library reuses a checker; their results are compared with
+    # the specification of C10, which checks every event afresh against exactly the state it needs
+    "op_filter": {"stateres": ["stateres.resolve", "stateres.resolve_old"]},
     "lean": ["VProps.C09"],
     "sources": ["VProps/C09.lean", "VModel/Auth.lean", "VModel/Event.lean", "VModel/GoJson.lean", "VModel/AuthNeeded.lean",
                 "VProofs/AuthNeeded.lean", "VProofs/AuthNeededProviders.lean"],
